@@ -86,7 +86,7 @@ private def pacts1 : List (Pair.Side × Pair.Act) :=
   [(.A, .open 1 [104] 80), (.A, .xmit), (.B, .recv), (.B, .xmit), (.A, .recv), (.A, .runDone), (.B, .accept),
    (.A, .write 0 [1, 2, 3]), (.A, .xmit)]
 example : Pair.Established (Pair.run (Pair.init pcfg1 pcfg1 [7, 8] [9, 10]) pacts1) 7 0 0 :=
-  ⟨by decide, by decide, by decide, by decide⟩
+  ⟨by decide, by decide, by decide, by decide, by decide⟩
 example : ((Pair.run (Pair.init pcfg1 pcfg1 [7, 8] [9, 10]) pacts1).a.objs[0]?.map (·.credit)) = some 0 := by decide
 example : Pair.pushesOf 7 (Pair.pathAB (Pair.run (Pair.init pcfg1 pcfg1 [7, 8] [9, 10]) pacts1)) = [[1, 2, 3]] := by decide
 
